@@ -715,5 +715,130 @@ theorem natLt_asymm {a b : Text} (ca : Canon a) (cb : Canon b) (h : natLt a b = 
   rw [natLt_eq_lexLt cb ca]
   exact lexLt_asymm (key_allOK a) (key_allOK b) h
 
+/-! ## building canonical texts -/
+
+theorem takeWhile_append_stop {p : Byte → Bool} {c : Byte} (hc : p c = false) :
+    ∀ (as b : Text), (as ++ c :: b).takeWhile p = as.takeWhile p
+  | [], b => by simp [hc]
+  | x :: xs, b => by
+    simp only [List.cons_append, List.takeWhile_cons]
+    split
+    · rw [takeWhile_append_stop hc xs b]
+    · rfl
+
+theorem dropWhile_append_stop {p : Byte → Bool} {c : Byte} (hc : p c = false) :
+    ∀ (as b : Text), (as ++ c :: b).dropWhile p = as.dropWhile p ++ c :: b
+  | [], b => by simp [hc]
+  | x :: xs, b => by
+    simp only [List.cons_append, List.dropWhile_cons]
+    split
+    · rw [dropWhile_append_stop hc xs b]
+    · rfl
+
+/-- cutting at a byte that is no digit cuts no run -/
+theorem toks_append {c : Byte} (hc : isDigit c = false) (b : Text) :
+    ∀ (n : Nat) (a : Text), a.length ≤ n → toks (a ++ c :: b) = toks a ++ toks (c :: b) := by
+  intro n
+  induction n with
+  | zero =>
+    intro a hl
+    have : a = [] := List.length_eq_zero_iff.mp (by omega)
+    subst this; simp [toks_nil]
+  | succ n ih =>
+    intro a hl
+    cases a with
+    | nil => simp [toks_nil]
+    | cons x as =>
+      cases hx : isDigit x
+      · rw [List.cons_append, toks_byte _ hx, toks_byte _ hx, ih as (by simp at hl; omega)]; rfl
+      · have hlen := length_dropWhile_le isDigit as
+        rw [List.cons_append, toks_digit _ hx, toks_digit _ hx, takeWhile_append_stop hc,
+          dropWhile_append_stop hc, ih _ (by simp at hl; omega)]; rfl
+
+theorem Canon.append {a b : Text} {c : Byte} (hc : isDigit c = false) (ca : Canon a) (cb : Canon (c :: b)) :
+    Canon (a ++ c :: b) := by
+  intro ds hds
+  rw [toks_append hc b _ a (Nat.le_refl _), List.mem_append] at hds
+  rcases hds with h | h
+  · exact ca ds h
+  · exact cb ds h
+
+theorem Canon.nil : Canon [] := by intro ds h; simp [toks_nil] at h
+
+theorem Canon.cons_byte {c : Byte} {s : Text} (hc : isDigit c = false) (h : Canon s) : Canon (c :: s) := by
+  intro ds hds
+  rw [toks_byte s hc] at hds
+  simp only [List.mem_cons, reduceCtorEq, false_or] at hds
+  exact h ds hds
+
+theorem takeWhile_allDig : ∀ {ds : Text}, AllDig ds → ds.takeWhile isDigit = ds
+  | [], _ => rfl
+  | d :: ds, h => by
+    rw [List.takeWhile_cons, h d (by simp), if_pos rfl, takeWhile_allDig h.tail]
+
+theorem dropWhile_allDig : ∀ {ds : Text}, AllDig ds → ds.dropWhile isDigit = []
+  | [], _ => rfl
+  | d :: ds, h => by
+    rw [List.dropWhile_cons, h d (by simp), if_pos rfl, dropWhile_allDig h.tail]
+
+/-- a canonical numeral is a canonical text -/
+theorem Canon.ofRun {ds : Text} (hd : AllDig ds) (hc : CanonRun ds) : Canon ds := by
+  cases ds with
+  | nil => exact Canon.nil
+  | cons d rest =>
+    intro r hr
+    rw [toks_digit rest (hd d (by simp)), takeWhile_allDig hd.tail, dropWhile_allDig hd.tail, toks_nil] at hr
+    simp only [List.mem_cons, Sum.inr.injEq, List.not_mem_nil, or_false] at hr
+    rw [hr]; exact hc
+
+/-- a text without digits is canonical -/
+theorem Canon.ofNoDigit : ∀ {s : Text}, (∀ c ∈ s, isDigit c = false) → Canon s
+  | [], _ => Canon.nil
+  | c :: cs, h => Canon.cons_byte (h c (by simp)) (Canon.ofNoDigit (fun x hx => h x (by simp [hx])))
+
+/-! ## a checker for `Canon` that the kernel can run -/
+
+def toksF : Nat → Text → List (Sum Byte Text)
+  | 0, _ => []
+  | _ + 1, [] => []
+  | f + 1, c :: cs =>
+    if isDigit c then .inr (c :: cs.takeWhile isDigit) :: toksF f (cs.dropWhile isDigit)
+    else .inl c :: toksF f cs
+
+theorem toksF_eq : ∀ (f : Nat) (s : Text), s.length ≤ f → toksF f s = toks s
+  | 0, s, h => by
+    have : s = [] := List.length_eq_zero_iff.mp (by omega)
+    subst this; simp [toksF, toks_nil]
+  | f + 1, [], _ => by simp [toksF, toks_nil]
+  | f + 1, c :: cs, h => by
+    have hlen := length_dropWhile_le isDigit cs
+    cases hc : isDigit c
+    · rw [toks_byte cs hc]; simp [toksF, hc, toksF_eq f cs (by simp at h; omega)]
+    · have e := toksF_eq f (cs.dropWhile isDigit) (by simp at h; omega)
+      rw [toks_digit cs hc]; simp [toksF, hc, e]
+
+def canonRunB : Text → Bool
+  | [] => false
+  | d :: rest => decide (rest.length ≤ 18) && (rest.isEmpty || d.toNat != 48)
+
+theorem canonRunB_sound {ds : Text} (h : canonRunB ds = true) : CanonRun ds := by
+  cases ds with
+  | nil => simp [canonRunB] at h
+  | cons d rest =>
+    simp only [canonRunB, Bool.and_eq_true, decide_eq_true_eq, Bool.or_eq_true, List.isEmpty_iff,
+      bne_iff_ne, ne_eq] at h
+    exact ⟨h.1, h.2⟩
+
+def canonB (s : Text) : Bool :=
+  (toksF s.length s).all fun
+    | .inl _ => true
+    | .inr ds => canonRunB ds
+
+theorem canonB_sound {s : Text} (h : canonB s = true) : Canon s := by
+  intro ds hds
+  rw [← toksF_eq s.length s (Nat.le_refl _)] at hds
+  have := List.all_eq_true.mp h _ hds
+  exact canonRunB_sound this
+
 end NatOrd
 end GoSnaps
